@@ -526,3 +526,53 @@ Section Scatter.
     intros v Hv. apply filter_In in Hv. destruct Hv as [_ Hv]. unfold not_none in Hv. destruct (is_none v); [discriminate|reflexivity].
   Qed.
 End Scatter.
+
+(* ---- the law `1 as f64 / 1 as f64 = 1.0` at the carriers in use, and a carrier where it fails --------------------- *)
+From Coq Require Floats.
+From Coq Require Import Reals Lra.
+From Tevec Require Base.XR Base.F64 Model.Cmp.
+
+Definition RankUnitLaw (A : Type) {NA : Num A} : Prop := ndiv (nofnat (A := A) 1) (nofnat 1) = none.
+
+Lemma rank_unit_law_Z : RankUnitLaw Z (NA := Cmp.NumZ).
+Proof. reflexivity. Qed.
+Lemma rank_unit_law_f64 : RankUnitLaw PrimFloat.float (NA := F64.NumF64).
+Proof. vm_compute. reflexivity. Qed.
+Lemma rank_unit_law_xr : RankUnitLaw XR.XR (NA := XR.NumXR).
+Proof.
+  unfold RankUnitLaw. rewrite XR.xofnat. cbn [INR]. rewrite XR.xdiv_some by lra.
+  change (@none XR.XR XR.NumXR) with (Some 1%R). f_equal. field.
+Qed.
+
+(* the integers with a division that returns 0: every other field as NumZ.  The law fails, and so does the
+   transparency: the lone valid element gets `1.0` from the early return and `1 / 1 = 0` from the loop. *)
+Definition NumZ_baddiv : Num Z :=
+  {| nzero := 0%Z; none := 1%Z; nadd := Z.add; nsub := Z.sub; nmul := Z.mul; ndiv := fun _ _ => 0%Z;
+     nneg := Z.opp; nabs := Z.abs; nsqrt := Z.sqrt; nofZ := fun z => z;
+     nltb := Z.ltb; nleb := Z.leb; neqb := Z.eqb; nisnan := fun _ => false; nnan := 0%Z; neps := 0%Z; ntwo := 2%Z |}.
+
+Lemma rank_unit_law_necessary :
+  ~ RankUnitLaw Z (NA := NumZ_baddiv) /\
+  vrank (NA := NumZ_baddiv) (DT := IsNone_option (H := NumZ_baddiv)) (DX := IsNoneX_option (H := NumZ_baddiv))
+        false false (insert_pat None [true] [Some 5%Z])
+  <> insert_pat (Some (nnan (Num := NumZ_baddiv))) [true]
+       (vrank (NA := NumZ_baddiv) (DT := IsNone_option (H := NumZ_baddiv)) (DX := IsNoneX_option (H := NumZ_baddiv))
+              false false [Some 5%Z]).
+Proof. split; [intros H; vm_compute in H; discriminate H|vm_compute; intros H; discriminate H]. Qed.
+
+(* ---- re-encoding and insertion composed ------------------------------------------------------------------------ *)
+From Tevec Require Proofs.NullView Proofs.EncRank.
+
+Theorem vrank_insert_across_encodings {A : Type} {NA : Num A} {T1 T2 : Type} (D1 : IsNone T1 A) (D2 : IsNone T2 A)
+        (X1 : IsNoneX T1 A) (X2 : IsNoneX T2 A) (pct rev : bool) (xs : list T1) (xs' ys : list T2) :
+  RankUnitLaw A -> EncRank.EqbView D1 D2 X1 X2 -> SameView D1 D2 xs xs' -> NullInsert (D := D2) xs' ys ->
+  exists p, opt_view (D := D2) ys = insert_pat None p (opt_view (D := D1) xs) /\
+            vrank (DT := D2) (DX := X2) pct rev ys
+            = insert_pat (Some nnan) p (vrank (DT := D1) (DX := X1) pct rev xs).
+Proof.
+  intros HL HE HS HI.
+  destruct (vrank_null_insert_generic (DX := X2) HL pct rev xs' ys HI) as (p & H1 & H2).
+  exists p. split.
+  - unfold opt_view. rewrite H1. f_equal. symmetry. apply (proj1 (Tevec.Proofs.NullView.same_view_opt_view D1 D2 xs xs') HS).
+  - rewrite H2. f_equal. symmetry. apply EncRank.vrank_view; assumption.
+Qed.
